@@ -51,7 +51,7 @@ func tokens(v string) []string {
 		case c == '"':
 			inq = !inq
 			cur.WriteByte(c)
-		case c == ' ' && !inq:
+		case (c == ' ' || c == '\t') && !inq:
 			if cur.Len() > 0 {
 				out = append(out, cur.String())
 				cur.Reset()
@@ -177,6 +177,10 @@ func genValue(rng *mrand.Rand, lists [][]byte, force int) (string, valueClass) {
 	if rng.IntN(50) == 0 && len(toks) > 1 {
 		cl.DoubleSep = true
 		sep = "  "
+	} else if rng.IntN(25) == 0 && len(toks) > 1 {
+		// RFC 9460 section 2.1: SvcParams are separated by white space, which is SP or HTAB
+		cl.DoubleSep = true
+		sep = []string{"\t", " \t", "\t\t"}[rng.IntN(3)]
 	}
 	return strings.Join(toks, sep), cl
 }
